@@ -854,6 +854,9 @@ func (ev *Eval) callExpr(x *ast.CallExpr) *Val {
 		return vInt("(imin "+arg(0).T+" "+arg(1).T+")", nil)
 	case "max":
 		return vInt("(imax "+arg(0).T+" "+arg(1).T+")", nil)
+	case "pow2":
+		v := arg(0)
+		return vInt(f.pow2Term(ev.st, v), nil)
 	case "abs":
 		return vInt("(iabs "+arg(0).T+")", nil)
 	case "ite":
